@@ -46,6 +46,11 @@ class Unit:
         self.t0 = time.time()
         self.s0 = eng.solver_time
         self.samples = []
+        self.ob_names = {}
+
+    def _count(self, qname):
+        k = qname.split("[")[0]
+        self.ob_names[k] = self.ob_names.get(k, 0) + 1
 
     def explore(self, fn, args, m=None, note=""):
         mach = self.eng.start(fn, args, m)
@@ -59,6 +64,7 @@ class Unit:
     def must_be_unsat(self, qname, conds, ctx=None, logic=None):
         """Obligation: conds is unsatisfiable. A model is a counterexample."""
         self.obligations += 1
+        self._count(qname)
         r, mod = self.eng.model(conds, logic=logic)
         if r == z3.unsat:
             self.discharged += 1
@@ -100,6 +106,7 @@ class Unit:
             res2 = list(ex.map(lambda it: run_one(it, cross), qs)) if cross else None
         for k, (qname, out, dt, ctx) in enumerate(res):
             self.obligations += 1
+            self._count(qname)
             self.ext_solver_s = getattr(self, "ext_solver_s", 0.0) + dt
             if res2 and res2[k][1] in ("sat", "unsat") and out in ("sat", "unsat") and res2[k][1] != out:
                 self.errors.append(f"{qname}: solvers disagree ({out} vs {res2[k][1]})")
@@ -117,6 +124,7 @@ class Unit:
     def must_be_true(self, qname, pyb, ctx=None):
         """A structural obligation decided by the executor itself (event order, data-flow identity)."""
         self.obligations += 1
+        self._count(qname)
         if pyb:
             self.discharged += 1
         else:
@@ -145,6 +153,7 @@ class Unit:
             "desc": self.desc, "obligations": self.obligations, "discharged": self.discharged,
             "solver_s": round(self.eng.solver_time - self.s0 + getattr(self, "ext_solver_s", 0.0), 3), "paths": self.paths, "witnesses": self.witnesses,
             "nonvacuous": self.witnesses > 0 and not self.vacuous,
+            "obligation_kinds": dict(sorted(self.ob_names.items())),
         }
         if self.failures:
             u["model"] = [{"query": q, "model": md, "ctx": ctx} for q, md, ctx in self.failures[:5]]
@@ -287,9 +296,10 @@ def unit_teardown(eng, tier, prop):
                 first_use = first_index(p, lambda e: (e[0] == "env") or e[0] in ("panic", "verify_mocker", "lock"))
                 ok = rel1 is not None and rel2 is not None and (first_use is None or (rel1 < first_use and rel2 < first_use))
                 u.must_be_true(f"C11.helpers-released-first[M={M}]", ok, ctx)
-                # the released things are actually dropped (drop calls follow each take)
-                drops = [e for e in p.trace if e[0] == "drop_call"]
-                u.must_be_true(f"C09.released-values-dropped[M={M}]", len(drops) >= 2, ctx)
+                # the released things are actually DROPPED before the clone count is read (a value lent via make_ref may
+                # itself hold a clone of the mock): both drops precede the first environment read / lock / verification
+                drops_i = [i for i, e in enumerate(p.trace) if (e[0] == "drop_call") or (e[0] == "drop" and ("ValueChain" in str(e[3]) or "DefaultImplDelegator" in str(e[3])))]
+                u.must_be_true(f"C09.released-values-dropped-before-the-count[M={M}]", len(drops_i) >= 2 and (first_use is None or drops_i[1] < first_use), dict(ctx, drops=drops_i, first_use=first_use))
                 nver = len(events(p, "verify_mocker"))
                 if kind == "return":
                     val = p.outcome[1]
@@ -458,18 +468,26 @@ def unit_teardown_wrappers(eng, tier, prop):
                 u.must_be_true("C03.teardown_panic-calls-teardown-once", len(events(p, "teardown")) == 1)
         u.witness("teardown_panic: both outcomes", [z3.BoolVal({p.outcome[0] for p in paths} >= {"panic", "return"})])
         tr = eng.find_fn(r"^teardown_report$")
-        rx2 = re.compile(r"^<Vec as IntoIterator>::into_iter$")
+        rx2 = re.compile(r"^<&?Vec as IntoIterator>::into_iter$")
 
         def h2(call):
             # the printing loop: the error list is abstracted to two elements (the verdict does not depend on them)
-            return IterVal([Cell(Opaque("error::MockError", f"err{i}"), None, f"err{i}") for i in range(2)], "vec_into_iter")
+            return IterVal([Cell(Opaque("error::MockError", f"err{i}"), None, f"err{i}") for i in range(2)], "slice_iter" if call.norm.startswith("<&") else "vec_into_iter")
+        rx3 = re.compile(r"ExitCode as From.*>::from$|^ExitCode::from$")
+
+        def h3(call):
+            a = Adt("ExitCode", None)
+            a.tag = ("exit_code", call.argv[0].e)
+            return a
         eng.handlers.insert(0, (rx2, h2))
+        eng.handlers.insert(0, (rx3, h3))
         try:
             with opaque_calls(eng, pats):
                 ref, uni, st = build_unimock(eng, 0)
                 paths = u.explore(tr, [ref])
         finally:
             eng.handlers.remove((rx2, h2))
+            eng.handlers.remove((rx3, h3))
         for p in paths:
             if p.outcome[0] == "return":
                 r = p.outcome[1]
@@ -479,6 +497,10 @@ def unit_teardown_wrappers(eng, tier, prop):
                 elif code.endswith("ExitCode::FAILURE"):
                     u.must_hold("C09.report-FAILURE-only-on-Err", p.pc, d == 1)
                     u.must_be_true("C09.report-prints-every-error", len([e for e in p.trace if e[0] == "opaque" and e[1].endswith("_eprint")]) == 2)
+                elif isinstance(r, Adt) and r.tag and r.tag[0] == "exit_code":
+                    # a computed exit status: it must be non-zero for every non-empty error list (of any length) and only then
+                    lens = [z3.UGE(v, 1) for n, v in eng.vars.items() if n.endswith(".len")]
+                    u.must_hold("C09.computed-exit-status-is-failure-exactly-on-Err", list(p.pc) + lens, z3.And(d == 1, r.tag[1] != 0), {"code": str(z3.simplify(r.tag[1]))[:120]})
                 else:
                     u.must_be_true("C09.report-unknown-exit-code", False, {"code": code})
                 u.must_be_true("C09.report-calls-teardown-once", len(events(p, "teardown")) == 1)
@@ -1307,11 +1329,15 @@ def unit_builder_chains(eng, tier, prop):
         eng.handlers.insert(0, it_)
         hs.append(it_)
 
+    conv_mode = {"fail": False}
+
     def h_conv(call):
         meth = call.norm.split("::")[-1]
+        call.m.event("convert", meth)
+        if conv_mode["fail"]:
+            return eng.mk_enum("Result", "Err", Adt("OutputError", eng.variant_index("OutputError", "NoMutexApi")))
         a = Adt("StoredReturn", None)
         a.tag = ("stored", meth)
-        call.m.event("convert", meth)
         return eng.mk_enum("Result", "Ok", a)
     add(r"^<T as (output::)?IntoReturn(Once)?>::into_return(_once)?$", h_conv)
 
@@ -1352,6 +1378,16 @@ def unit_builder_chains(eng, tier, prop):
                             ok = run_chain(eng, u, fn_by, new_b, start, ty0, mode, chain, resp_ops, RESP, (EX, AL, ALP), IN_ORDER)
                             checked += 1
                             kinds_seen.add((start, len(chain), quants[-1]))
+            # C14: a return value that cannot be produced in this feature set is remembered in the builder (the assembler
+            # turns it into a construction error): conversion fails for every `returns` chain start
+            conv_mode["fail"] = True
+            try:
+                for start, ty0, mode in starts:
+                    for quant in ("once", "n_times", None):
+                        run_chain(eng, u, fn_by, new_b, start, ty0, mode, [("returns", quant)], resp_ops, RESP, (EX, AL, ALP), IN_ORDER, expect_conv_error=True)
+                        checked += 1
+            finally:
+                conv_mode["fail"] = False
         u.witness(f"{checked} chain shapes executed", [z3.BoolVal(checked > 50)])
     finally:
         for it_ in hs:
@@ -1361,7 +1397,7 @@ def unit_builder_chains(eng, tier, prop):
     return u.result()
 
 
-def run_chain(eng, u, fn_by, new_b, start, ty0, mode, chain, resp_ops, RESP, EXS, IN_ORDER):
+def run_chain(eng, u, fn_by, new_b, start, ty0, mode, chain, resp_ops, RESP, EXS, IN_ORDER, expect_conv_error=False):
     EX, AL, ALP = EXS
     label = f"{start}:" + "->".join(f"{r}.{q or 'unquantified'}" for r, q in chain)
     # ---- build the initial typed builder object: DefineResponse / DefineMultipleResponses { wrapper: Owned(new(mode, matcher)), .. }
@@ -1473,6 +1509,11 @@ def run_chain(eng, u, fn_by, new_b, start, ty0, mode, chain, resp_ops, RESP, EXS
         return False
     b = pushed.val
     ctx = {"chain": label}
+    rerr = b.fields[(None, field_index(eng, "DynCallPatternBuilder", "responder_error"))].val
+    if expect_conv_error:
+        u.must_be_true("C14.unproducible-return-is-remembered-for-construction", isinstance(rerr, Adt) and rerr.discr == eng.variant_index("Option", "Some"), dict(ctx, responder_error=repr(rerr)[:80]))
+        return True
+    u.must_be_true("C14.no-spurious-responder-error", isinstance(rerr, Adt) and rerr.discr == eng.variant_index("Option", "None"), dict(ctx, responder_error=repr(rerr)[:80]))
     resp_v = b.fields[(None, field_index(eng, "DynCallPatternBuilder", "responders"))].val
     ce = b.fields[(None, field_index(eng, "DynCallPatternBuilder", "count_expectation"))].val
     got = []
@@ -1946,6 +1987,8 @@ def unit_delegators(eng, tier, prop):
                 inner = [c.val for c in d.fields.values()]
                 same = len(inner) == 1 and isinstance(inner[0], Adt) and inner[0].lazy is not None and inner[0].lazy.name == "the_instance"
                 u.must_be_true("C15.by-value-helper-wraps-the-callers-instance", same and not events(p, "unimock_clone"), {"clones": events(p, "unimock_clone")})
+                written = sorted(k[1] for k, c in inner[0].fields.items() if not isinstance(c.val, Opaque)) if same else []
+                u.must_be_true("C09.wrapping-does-not-alter-the-instance", written == [], {"fields_written": written})
                 paths2 = u.explore(fd, [d])
                 for q in paths2:
                     if q.outcome[0] != "return":
@@ -1955,6 +1998,56 @@ def unit_delegators(eng, tier, prop):
                                    isinstance(r, Adt) and r.lazy is not None and r.lazy.name == "the_instance" and not events(q, "unimock_clone"),
                                    {"returned": getattr(getattr(r, "lazy", None), "name", repr(r)[:40]), "clones": events(q, "unimock_clone")})
             u.witness("by-value impl explored", [z3.BoolVal(bool(paths))])
+        # &self / &mut self: the helper is created lazily, ONCE per instance: an existing helper (which owns the values lent
+        # through it, C13) is reused, never replaced; a fresh one wraps a clone of this instance
+        i_cell = field_index(eng, "Unimock", "default_impl_delegator_cell")
+        for acc, trait in (("as_ref", "AsRef"), ("as_mut", "AsMut")):
+            fs = [g for g in eng.fns if g.short == acc and g.params and g.params[0][1].replace(" ", "") in ("&Unimock", "&mutUnimock") and "DefaultImplDelegator" in (g.ret or "")]
+            u.must_be_true(f"C15.{acc}-helper-accessor-found", len(fs) == 1, {"n": len(fs)})
+            if len(fs) != 1:
+                continue
+            inst = lazy_adt("Unimock", "the_instance")
+            helper = Adt("DefaultImplDelegator", None)
+            helper.tag = ("existing_helper",)
+            opt = lazy_adt("Option", "helper_cell")
+            opt.fields[("Some", 0)] = Cell(Ref(Cell(helper, None, "existing_helper"), "box"), None, "boxed_helper")
+            oc = Adt("OnceCell", None)
+            oc.fields[("cell", 0)] = Cell(opt, None, "once")
+            inst.fields[(None, i_cell)] = Cell(oc, None, "default_impl_delegator_cell")
+            init = eng.named("helper_cell.discr", 64)
+            mach = eng.start(fs[0], [Ref(Cell(inst, None, "self"))])
+            mach.pc.append(z3.ULE(init, 1))
+            paths = eng.explore(mach)
+            u.paths += len(paths)
+            seen = set()
+            for p in paths:
+                if p.outcome[0] in ("unknown", "bound"):
+                    u.errors.append(f"{acc}: {p.outcome[0]}: {p.outcome[1]}")
+                    continue
+                if eng.check(p.pc) != z3.sat:
+                    continue
+                u.must_be_true(f"C15.{acc}-never-panics", p.outcome[0] == "return", {"outcome": repr(p.outcome)[:160]})
+                if p.outcome[0] != "return":
+                    continue
+                r = p.outcome[1]
+                tgt = r
+                hops = 0
+                while isinstance(tgt, Ref) and hops < 4:
+                    tgt = tgt.cell.val
+                    hops += 1
+                clones = events(p, "unimock_clone")
+                for had in (True, False):
+                    if eng.check(list(p.pc) + [init == (1 if had else 0)]) != z3.sat:
+                        continue
+                    seen.add(had)
+                    if had:
+                        u.must_be_true(f"C13.{acc}-reuses-the-existing-helper", isinstance(tgt, Adt) and tgt.tag == ("existing_helper",) and not clones and not events(p, "oncecell_new_with_value"),
+                                       {"returned": repr(tgt)[:80], "clones": clones})
+                    else:
+                        inner = [c.val for c in tgt.fields.values()] if isinstance(tgt, Adt) else []
+                        wraps = len(inner) == 1 and isinstance(inner[0], Adt) and inner[0].lazy is not None and inner[0].lazy.name == "clone_of_the_instance"
+                        u.must_be_true(f"C15.{acc}-fresh-helper-wraps-one-clone-of-this-instance", wraps and clones == [("unimock_clone", "the_instance")], {"returned": repr(tgt)[:80], "clones": clones})
+            u.must_be_true(f"C15.{acc}-explored-with-and-without-an-existing-helper", seen == {True, False}, {"seen": sorted(seen)})
         # Rc / Arc: helpers are clones of the pointee
         with opaque_calls(eng, [r"^<(Rc|Arc) as Deref>::deref$|^(Rc|Arc)::new$"]):
             for kind in ("Rc", "Arc"):
@@ -2267,6 +2360,18 @@ def unit_mirror_wiring(eng_unused, tier, prop, root=None):
     return r
 
 
+def leaves_conv(val, acc):
+    if isinstance(val, Adt):
+        if val.tag and val.tag[0] == "stored_of":
+            acc.append(val.tag[1])
+        for k in sorted(val.fields, key=lambda kk: (str(kk[0]), kk[1])):
+            leaves_conv(val.fields[k].val, acc)
+    elif isinstance(val, VecVal):
+        for c in val.items:
+            leaves_conv(c.val, acc)
+    return acc
+
+
 def unit_output_containers(eng, tier, prop):
     """C17 / C12 / C02: the deep containers (Option, Result, Poll, Vec, 1..4-tuples): `output()` reproduces the stored shape
     and yields None (=> the call panics) as soon as ANY leaf is exhausted — never a partial value; the single-use path
@@ -2308,6 +2413,12 @@ def unit_output_containers(eng, tier, prop):
                 continue
             val = p.outcome[1]
             some = val.discr == eng.variant_index("Option", "Some")
+            # a request that finds a leaf exhausted must not go on and TAKE later leaves (they would be destroyed without
+            # reaching any caller): the leaf requests stop at the first unavailable leaf
+            req = [e[1] for e in events(p, "leaf_output")]
+            u.must_be_true(f"C12.leaves-requested-in-order-stopping-at-the-first-exhausted[{label}]", req == leaf_names[:len(req)] and (some or len(req) >= 1 or not leaf_names), {"requested": req})
+            if not some and leaf_names:
+                u.must_hold(f"C12.no-leaf-taken-after-an-exhausted-one[{label}]", p.pc, z3.And([avail[i] for i in range(len(req) - 1)] + [z3.Not(avail[len(req) - 1])]) if req else z3.BoolVal(False), {"requested": req})
             if some:
                 u.must_hold(f"C12.value-only-if-every-leaf-is-available[{label}]", p.pc, z3.And(avail) if avail else z3.BoolVal(True))
                 got = leaves_in(val.fields[("Some", 0)].val, [])
@@ -2369,6 +2480,35 @@ def unit_output_containers(eng, tier, prop):
             for i in range(arity):
                 st.fields[(None, i)] = Cell(lazy_adt("Leaf", f"t{i}"), None, f"t{i}")
             check(cands[0], st, [f"t{i}" for i in range(arity)], f"tuple{arity}")
+        # Vec conversions keep the element order (both paths)
+        rxc = re.compile(r"IntoReturn(Once)?>::into_return(_once)?$")
+
+        def hc(call):
+            v = call.argv[0]
+            o = Adt("Stored", None)
+            o.tag = ("stored_of", v.tag[1] if isinstance(v, Adt) and v.tag else "?")
+            call.m.event("leaf_convert", o.tag[1])
+            return eng.mk_enum("Result", "Ok", o)
+        eng.handlers.insert(0, (rxc, hc))
+        try:
+            for conv in ("into_return", "into_return_once"):
+                cf = [g for g in eng.fns if g.short == conv and g.module.startswith("deep::vec::")]
+                u.must_be_true(f"C17.deep-vec-{conv}-found", len(cf) == 1)
+                if len(cf) != 1:
+                    continue
+                items = []
+                for i in range(3):
+                    e = Adt("Elem", None)
+                    e.tag = ("elem", f"e{i}")
+                    items.append(Cell(e, None, f"e{i}"))
+                paths = u.explore(cf[0], [VecVal(None, items, "Vec")], note=f"[vec {conv}]")
+                for p in paths:
+                    if p.outcome[0] != "return":
+                        continue
+                    got = leaves_conv(p.outcome[1], [])
+                    u.must_be_true(f"C17.deep-vec-conversion-keeps-element-order[{conv}]", got == ["e0", "e1", "e2"], {"got": got})
+        finally:
+            eng.handlers.remove((rxc, hc))
         # conversions: single-use path uses into_return_once for every leaf, repeatable path uses into_return
         conv = [g for g in eng.fns if g.short in ("into_return", "into_return_once") and re.match(r"(deep|poll|tup\d|shallow)", g.module)]
         n_checked = 0
@@ -2395,7 +2535,172 @@ def _generated_forwarding(eng, tier, prop, root=None):
     return genunits.unit_generated_forwarding(eng, tier, prop, root=root)
 
 
+def decode_fmt_template(t):
+    """Decode the compact `fmt::Arguments` template (`Arguments::new::<N, M>(b"...")`): a byte < 0x80 is the length of a literal
+    piece that follows, 0xC0 is a placeholder with default options taking the next argument, 0x00 ends the template.
+    Anything else (explicit options) is reported as an opaque placeholder."""
+    if isinstance(t, str):
+        raw = t
+        if raw.startswith('b"') and raw.endswith('"'):
+            raw = raw[2:-1]
+        b = bytearray()
+        i = 0
+        while i < len(raw):
+            if raw[i] == "\\":
+                if raw[i + 1] == "x":
+                    b.append(int(raw[i + 2:i + 4], 16))
+                    i += 4
+                else:
+                    b.append({"n": 10, "t": 9, "r": 13, "0": 0, "\\": 92, '"': 34, "'": 39}[raw[i + 1]])
+                    i += 2
+            else:
+                b.extend(raw[i].encode())
+                i += 1
+    else:
+        b = bytearray(t)
+    out = []
+    i = 0
+    while i < len(b):
+        c = b[i]
+        if c == 0:
+            break
+        if c < 0x80:
+            out.append(("lit", b[i + 1:i + 1 + c].decode("utf-8", "replace")))
+            i += 1 + c
+        elif c == 0xC0:
+            out.append(("arg",))
+            i += 1
+        else:
+            out.append(("arg?", c))
+            i += 1
+    return out
+
+
+def unit_display_call(eng, tier, prop):
+    """C19 / C08: the `Trait::method(args)` rendering of a call (the prefix of every mock-induced error text): the path, then the
+    inputs in declaration order separated by ", ", "?" for an input without a Debug rendering, for every arity and every
+    Some/None assignment; formatting never panics (a panic here would pre-empt the recording of the error, C08)."""
+    u = Unit(eng, "display-call", ["<FnActualCall as Display>::fmt"],
+             "arity 0..=N inputs (N = 3 quick, 4 thorough), each input's Debug rendering symbolically present or absent; the Formatter is infallible (write_fmt returns Ok)")
+    f = eng.find_fn(r"debug::<impl at src/debug\.rs[^>]*>::fmt$") if False else None
+    cands = [g for g in eng.fns if g.short == "fmt" and getattr(g, "self_ty", None) == "FnActualCall"]
+    if len(cands) != 1:
+        cands = [g for g in eng.fns if g.short == "fmt" and g.params and g.params[0][1].replace(" ", "") in ("&FnActualCall", "&debug::FnActualCall")]
+    u.must_be_true("C19.display-impl-found", len(cands) == 1, {"n": len(cands)})
+    if len(cands) != 1:
+        return u.result()
+    f = cands[0]
+    i_info = field_index(eng, "FnActualCall", "info")
+    i_in = field_index(eng, "FnActualCall", "inputs_debug")
+    i_path = field_index(eng, "MockFnInfo", "path")
+    N = 4 if tier == "thorough" else 3
+
+    def end_value(v):
+        hops = 0
+        while isinstance(v, Ref) and hops < 6:
+            v = eng.force(v.cell)
+            hops += 1
+        return v
+
+    def h_arg(call):
+        a = Adt("fmt::Argument", None)
+        v = end_value(call.argv[0])
+        a.tag = ("operand", v.tag if isinstance(v, Adt) and v.tag else ("?", repr(v)[:40]), call.callee.split("::")[-1])
+        return a
+
+    def h_write(call):
+        args = call.argv[1]
+        tag = args.tag if isinstance(args, Adt) else None
+        pieces = []
+        if tag and tag[0] == "fmt":
+            ops = list(tag[2] or ())
+            if ops or tag[1].startswith('b"') or "\\x" in tag[1]:
+                for pc in decode_fmt_template(tag[1]):
+                    if pc[0] == "lit":
+                        pieces.append(pc[1])
+                    else:
+                        o = ops.pop(0) if ops else None
+                        pieces.append(("arg", o[1] if o else None))
+            else:
+                pieces.append(tag[1])
+        else:
+            pieces.append(("unknown",))
+        call.m.event("write", tuple(pieces))
+        return eng.mk_enum("Result", "Ok", UNIT)
+    hs = [(re.compile(r"rt::Argument::new_(display|debug)$"), h_arg), (re.compile(r"Formatter::write_fmt$|Formatter::write_str$"), h_write)]
+    for h in hs:
+        eng.handlers.insert(0, h)
+    try:
+        total = 0
+        for n in range(0, N + 1):
+            items = []
+            present = []
+            for i in range(n):
+                o = Adt("Option", None)
+                d = eng.named(f"input[{i}].has_debug", 64)
+                sv = Adt("String", None)
+                sv.tag = ("input", i)
+                o.fields[("Some", 0)] = Cell(sv, None, f"in{i}")
+                o.discr = Int(d, 64, False)
+                present.append(d)
+                items.append(Cell(o, None, f"inputs[{i}]"))
+            call = Adt("FnActualCall", None)
+            info = Adt("MockFnInfo", None)
+            pth = Adt("TraitMethodPath", None)
+            pth.tag = ("path",)
+            info.fields[(None, i_path)] = Cell(pth, None, "path")
+            call.fields[(None, i_info)] = Cell(info, None, "info")
+            vec = VecVal(None, items, "Box<[T]>")
+            call.fields[(None, i_in)] = Cell(Ref(Cell(vec, None, "inputs"), "box"), None, "inputs_debug")
+            fm = Adt("Formatter", None)
+            mach = eng.start(f, [Ref(Cell(call, None, "call")), Ref(Cell(fm, None, "f"))])
+            for d in present:
+                mach.pc.append(z3.ULE(d, 1))
+            paths = eng.explore(mach)
+            u.paths += len(paths)
+            cover = []
+            for p in paths:
+                if p.outcome[0] in ("unknown", "bound"):
+                    u.errors.append(f"display[{n}]: {p.outcome[0]}: {p.outcome[1]}")
+                    continue
+                if eng.check(p.pc) != z3.sat:
+                    continue
+                cover.append(z3.And(p.pc) if p.pc else z3.BoolVal(True))
+                u.must_be_true(f"C08.rendering-a-call-never-panics[arity {n}]", p.outcome[0] == "return", {"outcome": repr(p.outcome)[:200]})
+                if p.outcome[0] != "return":
+                    continue
+                # flatten the written pieces
+                flat = []
+                for e in p.trace:
+                    if e[0] == "write":
+                        flat.extend(e[1])
+                # expected, as a function of the presence bits: decided per path by asking the solver for each bit's value
+                exp = [("arg", ("path",)), "("]
+                ok_bits = True
+                for i in range(n):
+                    some = eng.check(list(p.pc) + [present[i] == 1]) == z3.sat
+                    none = eng.check(list(p.pc) + [present[i] == 0]) == z3.sat
+                    if some and none:
+                        ok_bits = False   # the path did not look at this input at all
+                    if i:
+                        exp.append(", ")
+                    exp.append(("arg", ("input", i)) if some else "?")
+                exp.append(")")
+                # literal pieces may be split or merged differently by a refactoring: compare the rendered text
+                def text(ps):
+                    return "".join(x if isinstance(x, str) else "{" + ",".join(map(str, x[1] or ("?",))) + "}" for x in ps)
+                u.must_be_true(f"C19.call-rendered-as-path-and-inputs-in-order[arity {n}]", ok_bits and text(flat) == text(exp), {"rendered": text(flat), "expected": text(exp), "every_input_inspected": ok_bits})
+                total += 1
+            u.must_be_unsat(f"C19.rendering-covers-every-presence-assignment[arity {n}]", [z3.ULE(d, 1) for d in present] + [z3.Not(z3.Or(cover))] if cover else [z3.BoolVal(True)])
+        u.witness("renderings checked", [z3.BoolVal(total >= 2 ** N)])
+    finally:
+        for h in hs:
+            eng.handlers.remove(h)
+    return u.result()
+
+
 UNITS = {
+    "display_call": unit_display_call,
     "generated_forwarding": _generated_forwarding,
     "output_containers": unit_output_containers,
     "mirror_wiring": unit_mirror_wiring,
